@@ -51,7 +51,9 @@ P = {'id': 'C05',
               'cs_clone_preserves',
               'cs_remove_refuted',
               'da_refines_set_noop_remove',
-              'cs_refines_set_noop_remove'],
+              'cs_refines_set_noop_remove',
+              'da_insert_err_only_when_huge',
+              'da_noerr_or_huge'],
  'trusted': ['modelled (M+S): src/fsa/zipora_trie.rs Patricia storage as written, i.e. an uncompressed 256-ary trie over a node vector '
              '(insert_patricia_actual, contains_patricia_actual, remove_patricia_actual incl. the bottom-up cleanup, keys_patricia_actual / '
              'collect_keys_patricia_recursive, keys_with_prefix_patricia_actual, impl Trie::insert num_keys, ZiporaTrie::remove, impl FiniteStateAutomaton '
